@@ -6,10 +6,18 @@ SWAP = {'==': '==', '!=': '!=', '<': '>', '>': '<', '<=': '>=', '>=': '<='}
 CMP = set(NEG)
 
 
-def strip_casts(n):
+CAST_KINDS = ('CXXStaticCastExpr', 'CStyleCastExpr', 'CXXFunctionalCastExpr', 'CXXReinterpretCastExpr', 'CXXConstCastExpr')
+# calls that read state without changing it: a local initialised from them may be looked through
+PURE_CALLS = {'header', 'size', 'state', 'empty', 'zero', 'begin', 'end', 'data', 'min', 'max', 'usec', 'connection_event_counter', 'negotiated_mtu', 'client_mtu', 'server_mtu',
+              'is_random', 'is_encrypted', 'read_16bit', 'read_32bit', 'read_handle', 'bits', 'remote_address', 'local_address', 'client_configurations', 'security_attributes',
+              'first_index_by_handle', 'handle_by_index', 'index_by_handle', 'strlen', 'sizeof', 'get_io_capabilities', 'has_oob_data_for_remote_device', 'pdu_length', 'data_channel_pdu_memory_size'}
+_LOCALS = {}
+
+
+def strip_casts_raw(n):
     """strip explicit casts and value-preserving single-argument constructions (copies / conversions)"""
     while n is not None and not isinstance(n, int):
-        if n.k in ('CXXStaticCastExpr', 'CStyleCastExpr', 'CXXFunctionalCastExpr', 'CXXReinterpretCastExpr', 'CXXConstCastExpr') and n.c:
+        if n.k in CAST_KINDS and n.c:
             n = n.c[0]
         elif n.d.get('ctor') and len(n.c) == 1 and n.k in ('CXXConstructExpr',):
             n = n.c[0]
@@ -18,8 +26,113 @@ def strip_casts(n):
     return n
 
 
+def _raw_target(t):
+    t = strip_casts_raw(t)
+    while t is not None:
+        if t.k in REF_KINDS:
+            return t.n
+        if t.k == 'ArraySubscriptExpr' or (t.k == 'UnaryOperator' and t.o == '*') or (t.k == 'CXXOperatorCallExpr' and t.o in ('[]', '*')):
+            t = strip_casts_raw(t.c[0]) if t.c else None
+            continue
+        return None
+    return None
+
+
+def _local_table(fn):
+    """single-assignment locals of fn whose initialiser is a pure expression: {name: initialiser node}.
+    A reference to such a local denotes its initialiser (`const bool fresh = a == b; if ( fresh )` is `if ( a == b )`)."""
+    key = id(fn)
+    t = _LOCALS.get(key)
+    if t is not None:
+        return t
+    t = {}
+    _LOCALS[key] = t
+    body = fn.body
+    decls = {}
+    written = set()
+    for n in body.walk():
+        if n.k == 'VarDecl' and n.n:
+            decls.setdefault(n.n, []).append(n)
+        if n.k == 'BinaryOperator' and n.o == '=' and len(n.c) == 2:
+            written.add(_raw_target(n.c[0]))
+        elif n.k == 'CompoundAssignOperator' and n.c:
+            written.add(_raw_target(n.c[0]))
+        elif n.k == 'UnaryOperator' and n.o in ('++', '--') and n.c:
+            written.add(_raw_target(n.c[0]))
+        elif n.k == 'CXXOperatorCallExpr' and n.o in ('=', '+=', '-=', '|=', '&=', '^=', '++', '--') and n.c:
+            written.add(_raw_target(n.c[0]))
+        elif n.k == 'UnaryOperator' and n.o == '&' and n.c and strip_casts_raw(n.c[0]).k in REF_KINDS and strip_casts_raw(n.c[0]).d.get('local'):
+            written.add(strip_casts_raw(n.c[0]).n)      # address taken: may be written through the pointer
+    for name, ds in decls.items():
+        if len(ds) != 1 or not ds[0].c or name in written:
+            continue
+        d = ds[0]
+        ty = d.t or ''
+        if '&' in ty and 'const' not in ty:
+            continue                                      # non-const reference: an alias that may be written through
+        if '[' in ty:
+            continue                                      # arrays are storage, not values
+        init = d.c[0]
+        if init.k in ('InitListExpr', 'LambdaExpr', 'CXXConstructExpr') and not (init.k == 'CXXConstructExpr' and len(init.c) == 1):
+            continue
+        ok = True
+        for x in init.walk():
+            if x.k == 'LambdaExpr':
+                ok = False
+            elif x.d.get('call') and x.k not in ('CXXConstructExpr', 'CXXTemporaryObjectExpr') and not (x.k == 'CXXOperatorCallExpr' and x.o in ('[]', '*', '==', '!=', '<', '>', '<=', '>=', '+', '-', '&', '|', '!')):
+                if x.d.get('cn') not in PURE_CALLS:
+                    ok = False
+            elif x.k in REF_KINDS and not x.d.get('local') and x.d.get('dk') not in ('Function', 'EnumConstant', 'CXXMethod') and x.d.get('r') != 'callee' and x.n in written:
+                ok = False                                # reads a member / global that this function also writes
+            if not ok:
+                break
+        if ok:
+            t[name] = init
+    return t
+
+
+def resolve_local(n):
+    """initialiser of the single-assignment pure local that n names (else None)"""
+    if n is None or isinstance(n, int) or n.k != 'DeclRefExpr' or not n.d.get('local') or n.fn is None:
+        return None
+    try:
+        return _local_table(n.fn).get(n.n)
+    except Exception:
+        return None
+
+
+def strip_casts(n):
+    """strip explicit casts, parentheses and value-preserving single-argument constructions (copies / conversions)"""
+    while n is not None and not isinstance(n, int):
+        if n.k in CAST_KINDS and n.c:
+            n = n.c[0]
+        elif n.d.get('ctor') and len(n.c) == 1 and n.k in ('CXXConstructExpr',):
+            n = n.c[0]
+        elif n.k == 'ParenExpr' and len(n.c) == 1:
+            n = n.c[0]
+        else:
+            break
+    return n
+
+
+def deep(n):
+    """strip_casts, and look through single-assignment locals with a pure initialiser (a named sub-condition, a hoisted
+    sub-expression, a renamed copy): the structure-examining helpers (atoms, as_binop, same_expr, cval, lin, mentions) use this"""
+    depth = 0
+    while n is not None and not isinstance(n, int):
+        n = strip_casts(n)
+        init = resolve_local(n) if depth < 6 else None
+        if init is None:
+            break
+        depth += 1
+        n = init
+    return n
+
+
 def atoms(cond, outcome):
-    """atomic relations (lhs node, op, rhs node|int) known to hold when `cond` evaluated to `outcome` (True/False)."""
+    """atomic relations (lhs node, op, rhs node|int) known to hold when `cond` evaluated to `outcome` (True/False).
+    A named sub-condition (single-assignment local with a pure initialiser) stands for its initialiser; the relation with the
+    name itself is kept too, so that rules may refer to either."""
     out = []
     if cond is None or not isinstance(outcome, bool):
         return out
@@ -38,10 +151,26 @@ def atoms(cond, outcome):
         return out
     if (c.k == 'BinaryOperator' or c.k == 'CXXOperatorCallExpr') and c.o in CMP and len(c.c) == 2:
         op = c.o if outcome else NEG[c.o]
-        out.append((strip_casts(c.c[0]), op, strip_casts(c.c[1])))
+        l, r = strip_casts(c.c[0]), strip_casts(c.c[1])
+        # `flag == false`, `flag != 0` with a named sub-condition
+        for a, b in ((l, r), (r, l)):
+            if op in ('==', '!=') and b.v is not None and not b.c and b.v in (0, 1):
+                init = resolve_local(a)
+                if init is not None and _condition_like(init):
+                    return [(l, op, r)] + atoms(init, (op == '==') == bool(b.v))
+        out.append((l, op, r))
         return out
     out.append((c, '!=' if outcome else '==', 0))
+    init = resolve_local(c)
+    if init is not None and _condition_like(init):
+        out.extend(atoms(init, outcome))
     return out
+
+
+def _condition_like(n):
+    n = strip_casts(n)
+    return n is not None and ((n.k == 'BinaryOperator' and n.o in CMP | {'&&', '||', '&'}) or (n.k == 'UnaryOperator' and n.o == '!') or (n.k == 'CXXOperatorCallExpr' and n.o in CMP | {'!'})
+                              or n.d.get('call') or resolve_local(n) is not None)
 
 
 def _expand_local_flags(fn, ats, depth=0):
@@ -68,7 +197,7 @@ def guard_atoms(fn, node):
     for cond, outcome in fn.guards(node):
         if isinstance(outcome, bool):
             res.extend(atoms(cond, outcome))
-    return res + _expand_local_flags(fn, res)
+    return res
 
 
 def cval(n):
@@ -77,6 +206,10 @@ def cval(n):
     if n is None:
         return None
     n = strip_casts(n)
+    if n.v is None:
+        d = deep(n)
+        if d is not None and d is not n and d.v is not None and not d.c:
+            return d.v
     return n.v
 
 
@@ -142,8 +275,28 @@ def has_atom(ats, is_subject, ops, other_pred):
     return False
 
 
-def same_expr(a, b):
-    """structural equality of two expression trees (names, operators, constants), ignoring casts"""
+def _ptr_form(n):
+    """(base, offset node|int) for `p + k`, `&p[k]`, `p` ; (base, index, 'elem') for `p[k]`, `*(p + k)`, `*p`"""
+    n = strip_casts(n)
+    if n.k == 'UnaryOperator' and n.o == '&' and n.c:
+        s2 = strip_casts(n.c[0])
+        if s2.k == 'ArraySubscriptExpr' and len(s2.c) == 2:
+            return ('ptr', s2.c[0], s2.c[1])
+    if n.k == 'BinaryOperator' and n.o == '+' and len(n.c) == 2 and '*' in (n.t or ''):
+        return ('ptr', n.c[0], n.c[1])
+    if n.k == 'ArraySubscriptExpr' and len(n.c) == 2:
+        return ('elem', n.c[0], n.c[1])
+    if n.k == 'UnaryOperator' and n.o == '*' and n.c:
+        inner = _ptr_form(n.c[0])
+        if inner and inner[0] == 'ptr':
+            return ('elem', inner[1], inner[2])
+        return ('elem', n.c[0], 0)
+    return None
+
+
+def same_expr(a, b, _depth=0):
+    """structural equality of two expression trees (names, operators, constants), ignoring casts; named pure locals stand for
+    their initialisers; `&p[k]` == `p + k`, `*p` == `p[0]`, operands of commutative operators may be swapped"""
     if isinstance(a, int) or isinstance(b, int):
         return cval(a) is not None and cval(a) == cval(b)
     a = strip_casts(a)
@@ -154,13 +307,29 @@ def same_expr(a, b):
         return a.v == b.v
     ka = 'ref' if a.k in REF_KINDS else ('call' if a.d.get('call') else a.k)
     kb = 'ref' if b.k in REF_KINDS else ('call' if b.d.get('call') else b.k)
+    if ka == 'ref' and kb == 'ref' and a.n == b.n:
+        ca = [x for x in a.c if not (x.k == 'CXXThisExpr')]
+        cb = [x for x in b.c if not (x.k == 'CXXThisExpr')]
+        if len(ca) == len(cb) and all(same_expr(x, y, _depth) for x, y in zip(ca, cb)):
+            return True
+    if _depth < 5:
+        da, db = deep(a), deep(b)
+        if da is not a or db is not b:
+            return same_expr(da, db, _depth + 1)
+        pa, pb = _ptr_form(a), _ptr_form(b)
+        if pa and pb and (pa[0] == pb[0]) and (a.k != b.k or a.o != b.o):
+            return same_expr(pa[1], pb[1], _depth + 1) and same_expr(pa[2], pb[2], _depth + 1)
     if ka != kb or a.n != b.n or a.o != b.o or a.d.get('cn') != b.d.get('cn'):
         return False
     ca = [x for x in a.c if not (x.k == 'CXXThisExpr')]
     cb = [x for x in b.c if not (x.k == 'CXXThisExpr')]
     if len(ca) != len(cb):
         return False
-    return all(same_expr(x, y) for x, y in zip(ca, cb))
+    if all(same_expr(x, y, _depth) for x, y in zip(ca, cb)):
+        return True
+    if a.k == 'BinaryOperator' and a.o in ('+', '*', '&', '|', '^', '==', '!=', '&&', '||') and len(ca) == 2:
+        return same_expr(ca[0], cb[1], _depth) and same_expr(ca[1], cb[0], _depth)
+    return False
 
 
 def stores(root):
@@ -230,10 +399,17 @@ def is_toggle_of(val, name):
     return v is not None and v.k == 'UnaryOperator' and v.o == '!' and is_name(v.c[0], name)
 
 
-def mentions(n, name):
+def mentions(n, name, _depth=0):
     if n is None or isinstance(n, int):
         return False
-    return any(x.k in REF_KINDS and x.n == name for x in n.walk())
+    for x in n.walk():
+        if x.k in REF_KINDS and x.n == name:
+            return True
+        if _depth < 4:
+            init = resolve_local(x)
+            if init is not None and mentions(init, name, _depth + 1):
+                return True
+    return False
 
 
 def variants(facts, q, chk=None, need_pattern=True, file=None):
@@ -322,6 +498,10 @@ def as_binop(n):
     n = strip_casts(n)
     if n is None or isinstance(n, int):
         return None
+    if n.k in REF_KINDS:
+        d = deep(n)
+        if d is not None and d is not n and d.k in ('BinaryOperator', 'CXXOperatorCallExpr'):
+            n = d
     if n.k in ('BinaryOperator', 'CompoundAssignOperator') and len(n.c) == 2:
         return n.o, strip_casts(n.c[0]), strip_casts(n.c[1])
     if n.k == 'CXXOperatorCallExpr' and len(n.c) == 2 and n.o not in ('()', '[]'):
